@@ -33,7 +33,8 @@ func NewDispatch(listeners ...ecs.Listener) Dispatch {
 		}
 	}
 	return Dispatch{
-		listeners:     listeners,
+		// Copy: AddListener appends, which must not write into the caller's slice.
+		listeners:     append([]ecs.Listener{}, listeners...),
 		events:        events,
 		components:    components,
 		hasComponents: hasComponents,
